@@ -1,22 +1,13 @@
-import CedarVerif.Cedar.Data
+import CedarVerif.Cedar.Validation.Types
 /-
 `cedar_policy_core::entities::SchemaType` (cedar-policy-core/src/entities/json/schema_types.rs): the types
 schema-based JSON parsing can expect.  A record type is the `BTreeMap<SmolStr, AttributeType>` as a key-sorted
 association list of `(key, required?, type)` plus the `open_attrs` flag.  Import-free.
-(Self-contained on purpose: the full schema model lives elsewhere.)
+(The inductive type is shared with the schema model: Validation/Types.lean.)
 -/
 namespace Cedar
 
-inductive SchemaType where
-  | bool
-  | long
-  | string
-  | set (elem : SchemaType)
-  | emptySet
-  | record (attrs : List (String × Bool × SchemaType)) (openAttrs : Bool)
-  | entity (ty : EntityType)
-  | ext (name : String)
-deriving Repr, Inhabited
+-- `SchemaType` itself is defined once, in Validation/Types.lean (same constructors, same order).
 
 namespace SchemaType
 
